@@ -34,7 +34,8 @@ def tasks(tier, seed):
         t0.text = '#define SCALED_BUFFER containerSize\n' + t0.text
         t0.tid = t0.tid.replace('session_buf_eq_container_scaled', 'session_buf_eq_container')
         t0.desc = 'stream buffer size == container size: ' + t0.desc
-        if '_c1_' not in t0.tid:            # container size 1 with a 1-byte buffer is the recorded chunk > buffer finding
+        cs_ = int(t0.tid.split('_c')[-1].split('_')[0])
+        if cs_ >= 16:                        # a buffer smaller than the largest decoder chunk (8 / 16 bytes) is the recorded chunk > buffer finding
             ts.append(t0)
     # the same relation under every schedule with one preemption, container size 13 (fields straddle container boundaries):
     # the compressor may have gone back to sleep just before the encoder's straddling write() call
@@ -47,7 +48,8 @@ def tasks(tier, seed):
     for ec in (0, 1):
         ts += SCH.sched_tasks(tier, [], 'close%d_child_first' % ec, None,
                               {'memory', 'uncaught_exception', 'terminate', 'deadlock', 'hang', 'leak'}, in_cs=True, child_first=True,
-                              extra_defs='#undef EARLY_CLOSE_AFTER\n#define EARLY_CLOSE_AFTER %d\n' % ec, nobj=3)
+                              extra_defs='#undef EARLY_CLOSE_AFTER\n#define EARLY_CLOSE_AFTER %d\n' % ec, nobj=3,
+                              cfgs=([(0, 40, 0), (0, 7, 0)] if ec == 0 else [(0, 40, 0)]) if tier == 'quick' else None)
     # lemma of the monitor reduction: no lost wake-up in the stream (every consumer operation that frees buffer space
     # notifies the waiting producer, every producer operation that makes data / the end available notifies the consumer)
     import c15
